@@ -283,6 +283,13 @@ func (r *renderer) expr(e Expr) {
 		r.t(")")
 	case *Unary:
 		r.t(x.Op)
+		if _, post := x.X.(*Postfix); post {
+			// how a postfix ++/-- groups with a prefix operator is not fixed by any statement: always parenthesised
+			r.t("(")
+			r.expr(x.X)
+			r.t(")")
+			break
+		}
 		r.sub(x.X, lvPrefix)
 	case *Postfix:
 		r.sub(x.X, lvSuffix)
